@@ -18,6 +18,8 @@
                                 5  triple read (SPARQL / find_with_pending) inside a transaction: the RDF store keeps
                                    no snapshot (later commits show) and the scan ignores the transaction's own buffer
                                 6  raw adjacency (neighbours, degrees) — no visibility check at all
+                                7  GrafeoDB::execute_cypher_with_params plans with a private transaction manager
+                                   (viewing epoch 0): nodes committed by transactions that began later are missed
                               A write statement's MATCH is a read too: positions of writes whose matched set
                               differs between model and specification are reported with class + 10, and the
                               evaluation stops there (afterwards the two states are not comparable).
@@ -80,22 +82,61 @@ Definition scan_class (st : state) (d : db) (e t : Z) (m : sel) (n : Z) : Z :=
 Definition point_class (mv i : bool) (same : bool) : Z :=
   if mv && negb i then 1 else if negb mv && i then 3 else if mv && i && negb same then 2 else 0.
 
-Definition count_row (r : Z * Z * Z) (l : list (Z * Z * Z)) : nat := length (filter (eqb3 r) l).
-
-(** rows of an expand that only one side has *)
-Definition row_class_model_only (st : state) (d : db) (r : Z * Z * Z) : Z :=
-  let '(a, x, b) := r in
-  match d_edge d x with
-  | None => 1
-  | Some rec => if negb (eqb3 rec (e_rec st x)) then 1 else if negb (in_db d b) then 1 else 0
+(** *** expand: one source node [a], one edge id [x], one direction ([out_dir] = forward list).
+    [m_slot]: the row the model's expand produces through the adjacency entry of edge [x] at node [a] (the
+    adjacency lists hold exactly the edges' endpoints in id order: [adj_inv], ProofsExpand.v);
+    [i_slot]: the row the snapshot contains there (the body of [out_rows] / [in_rows] of Spec.v) *)
+Definition ty_model (st : state) (ty : option Z) (x : Z) : bool :=
+  match ty with
+  | Some want => match edge_type st x with Some have => have =? want | None => false end
+  | None => true
   end.
-Definition row_class_ideal_only (st : state) (e t : Z) (dr : dir) (ty : option Z) (r : Z * Z * Z) : Z :=
-  let '(a, x, b) := r in
-  if negb (MEv st e t x) then 3
-  else if negb (Mv st e t b) then 3
-  else if (match ty with Some _ => negb (MEs st x) | None => false end) then 4
-  else if negb (existsb (eqb2 (b, x)) (edges_from st a dr)) then 6
-  else 0.
+Definition m_slot (st : state) (e t : Z) (ty : option Z) (out_dir : bool) (a x : Z) : list (Z * Z * Z) :=
+  let '(s0, t0, _) := e_rec st x in
+  if out_dir
+  then (if (s0 =? a) && negb (memz x (fwd_del st a)) && ty_model st ty x && MEv st e t x && Mv st e t t0
+        then [(a, x, t0)] else [])
+  else (if (t0 =? a) && negb (memz x (bwd_del st a)) && ty_model st ty x && MEv st e t x && Mv st e t s0
+        then [(a, x, s0)] else []).
+Definition i_slot (d : db) (ty : option Z) (out_dir : bool) (a x : Z) : list (Z * Z * Z) :=
+  match d_edge d x with
+  | Some (s, t, y) =>
+      if out_dir
+      then (if (s =? a) && ty_ok ty y && in_db d t then [(a, x, t)] else [])
+      else (if (t =? a) && ty_ok ty y && in_db d s then [(a, x, s)] else [])
+  | None => []
+  end.
+(** class of a slot on which the two sides differ (0 = they agree; the two inner 0s are unreachable for a
+    history of the model: ProofsExpand.v) *)
+Definition slot_class (st : state) (d : db) (e t : Z) (ty : option Z) (out_dir : bool) (a x : Z) : Z :=
+  let ms := m_slot st e t ty out_dir a x in
+  if list_eqb eqb3 ms (i_slot d ty out_dir a x) then 0
+  else
+    match ms with
+    | (_, _, b) :: _ =>
+        (* the model's expand returns a row the snapshot lacks: the edge, or its other end, is not in the snapshot *)
+        match d_edge d x with
+        | None => 1
+        | Some _ => if in_db d b then 0 else 1
+        end
+    | [] =>
+        (* the snapshot has a row the model's expand does not return *)
+        let '(s0, t0, _) := e_rec st x in
+        let b := if out_dir then t0 else s0 in
+        if negb (MEv st e t x) then 3
+        else if negb (Mv st e t b) then 3
+        else if (match ty with Some _ => negb (MEs st x) | None => false end) then 4
+        else if memz x (if out_dir then fwd_del st a else bwd_del st a) then 6
+        else 0
+    end.
+Definition expand_class (st : state) (d : db) (e t : Z) (m : sel) (dr : dir) (ty : option Z) (nb eb : Z) : Z :=
+  first_class (fun a =>
+      if sp_match d m a then
+        first_class (fun x =>
+            let co := match dr with Inc => 0 | _ => slot_class st d e t ty true a x end in
+            if negb (co =? 0) then co
+            else match dr with Out => 0 | _ => slot_class st d e t ty false a x end) (range eb)
+      else 0) (range nb).
 
 Definition classify_read (st : state) (sp : sstate) (s : Z) (k : kind) : Z :=
   let '(e, t) := ctx st s in
@@ -121,15 +162,7 @@ Definition classify_read (st : state) (sp : sstate) (s : Z) (k : kind) : Z :=
   | GetEdge x => point_class (MEv st e t x) (in_dbe d x) (opt_eqb eqb3 (Some (e_rec st x)) (d_edge d x))
   | Expand m dr ty =>
       let c := first_class (scan_class st d e t m) (range nb) in
-      if negb (c =? 0) then c
-      else
-        let rm := flat_map (fun a => expand_row st a dr ty e t) (scan st m e t) in
-        let ri := flat_map (fun a => sp_rows d eb a dr ty) (filter (sp_match d m) (range nb)) in
-        let c1 := fold_left (fun acc r => if negb (acc =? 0) then acc
-                                          else if Nat.ltb (count_row r ri) (count_row r rm) then row_class_model_only st d r else 0) rm 0 in
-        if negb (c1 =? 0) then c1
-        else fold_left (fun acc r => if negb (acc =? 0) then acc
-                                     else if Nat.ltb (count_row r rm) (count_row r ri) then row_class_ideal_only st e t dr ty r else 0) ri 0
+      if negb (c =? 0) then c else expand_class st d e t m dr ty nb eb
   | Neigh _ _ | Degree _ => 6
   | TripleQ _ | TripleApi _ =>
       (* the RDF store keeps no snapshot and the triple scan ignores the transaction's buffer *)
@@ -144,7 +177,15 @@ Definition classify_read (st : state) (sp : sstate) (s : Z) (k : kind) : Z :=
                                  let sysx := MEv st (tm_epoch st) SYSTEM x in
                                  if Bool.eqb cm ci then 0
                                  else if cm then (if sysx then 1 else 4) else (if sysx then 4 else 3)) (range eb)
-  | StoreLabel _ | StoreProp _ _ => 0
+  | StoreLabel _ | StoreProp _ _ => 2     (* raw label index / property column: unversioned side tables *)
+  | FreshLabelScan l =>
+      (* 7 where the ordinary label scan of a session without transaction agrees with the committed database
+         and the scan at the private manager's epoch 0 does not; otherwise the class of the ordinary scan *)
+      first_class (fun n =>
+          let cm := memz n (l_index st l) && Mv st 0 SYSTEM n in
+          if Bool.eqb cm (has_label dc n l) then 0
+          else let cs := scan_class st dc (tm_epoch st) SYSTEM (SelLabel l) n in
+               if cs =? 0 then 7 else cs) (range nb)
   end.
 
 (** the read inside a write statement: does the model select / affect the same entities as the
@@ -212,8 +253,14 @@ Fixpoint verdicts (st : state) (sp : sstate) (i : Z) (ops : list op) (outs : lis
   end.
 Definition c01_fails (ops : list op) (outs : list out) : list (Z * Z) := verdicts init sinit 0 ops outs.
 (** finding class [c] explains a failure of this history (read failure, or the read of a write statement) *)
-Definition c01_k (c : Z) (ops : list op) (outs : list out) : bool :=
-  existsb (fun pc => (snd pc =? c) || (snd pc =? c + 10)) (c01_fails ops outs).
+Definition c01_k_of (c : Z) (fails : list (Z * Z)) : bool :=
+  existsb (fun pc => (snd pc =? c) || (snd pc =? c + 10)) fails.
+Definition c01_k (c : Z) (ops : list op) (outs : list out) : bool := c01_k_of c (c01_fails ops outs).
+(** everything the check needs about one history, in one evaluation: model == implementation, the failing
+    positions with their classes, and [c01_k c] for c = 1 .. 7 *)
+Definition c01_report (ops : list op) (outs : list out) : bool * list (Z * Z) * list bool :=
+  let f := c01_fails ops outs in
+  (chk_hist ops outs, f, map (fun c => c01_k_of c f) [1; 2; 3; 4; 5; 6; 7]).
 (** the part of the history the oracle could evaluate satisfies [snapshot_ok] *)
 Definition c01_ok (ops : list op) (outs : list out) : bool :=
   match c01_fails ops outs with [] => true | _ => false end.
@@ -274,12 +321,19 @@ Fixpoint c02_fails_from (j : Z) (ops : list op) (outs : list out) (ps : list ((Z
   end.
 Definition c02_fails (ops : list op) (outs : list out) (ds : list (Z * Z * Z)) : list (Z * Z) :=
   c02_fails_from 0 ops outs (dump_pairs ds).
+Definition c02_k_of (c : Z) (fails : list (Z * Z)) : bool := existsb (fun pc => snd pc =? c) fails.
 Definition c02_k (c : Z) (ops : list op) (outs : list out) (ds : list (Z * Z * Z)) : bool :=
-  existsb (fun pc => snd pc =? c) (c02_fails ops outs ds).
+  c02_k_of c (c02_fails ops outs ds).
 (** how many dump pairs enclose a checkable transaction *)
 Definition c02_checked (ops : list op) (outs : list out) (ds : list (Z * Z * Z)) : Z :=
   Z.of_nat (length (filter (fun p => match check_pair ops outs (fst p) (snd p) with Some _ => true | None => false end)
                            (dump_pairs ds))).
+
+(** one evaluation per history: model == implementation, failing dump pairs with classes, number of checkable
+    transactions, and [c02_k c] for c = 1, 2, 4, 5 *)
+Definition c02_report (ops : list op) (outs : list out) (ds : list (Z * Z * Z)) : bool * list (Z * Z) * Z * list bool :=
+  let f := c02_fails ops outs ds in
+  (chk_hist ops outs, f, c02_checked ops outs ds, map (fun c => c02_k_of c f) [1; 2; 4; 5]).
 
 (** ** dumps (used by the witnesses of the C02 theorems; the harness builds its dumps the same way) *)
 Definition node_dump_kinds (n : Z) : list kind :=
